@@ -122,6 +122,7 @@ const AGGS: &[&str] = &[
     "count(DISTINCT v)",                         // 14
     "reduce(s = 0, x IN collect(v) | s + x)",    // 15
     "size(collect(w))",                          // 16
+    "avg(DISTINCT v)",                           // 17
 ];
 
 fn float_has(v: &CV, pred: &dyn Fn(f64) -> bool) -> bool {
@@ -470,6 +471,21 @@ fn check(c: &AggCase, obs: &mut Obs) -> CaseResult {
                     }
                 } else {
                     check_sum(&r[13], &d1, "sum(DISTINCT v)", obs, &d)?;
+                    // avg(DISTINCT v): the mean of the distinct values (identity decided on the
+                    // values themselves, not on their float conversions)
+                    if d1.is_empty() {
+                        if r[17] != CV::Null {
+                            fail!("agg-wrong:avg(DISTINCT v)", "avg(DISTINCT) over no values returned {}{}", xl::show(&r[17]), d());
+                        }
+                    } else {
+                        let sr = sum_ref(&d1);
+                        if matches!(sr, SumRef::Ambiguous) || matches!(sr, SumRef::Int(_, m) if m > 1e307) {
+                            obs.class("ambiguous:float-overflow-order");
+                        } else {
+                            obs.class_if(d1.len() < vals.len(), "avg-distinct-with-duplicates");
+                            check_float(&r[17], &sr, d1.len() as f64, "avg(DISTINCT v)", &d)?;
+                        }
+                    }
                 }
             } else {
                 obs.class("ambiguous:distinct-identity");
@@ -519,7 +535,7 @@ pub fn run(ctx: &mut RunCtx) {
     ctx.explore(
         "aggregates",
         "0-13 rows (key, numeric-or-null v, any-or-null w) over 1-3 keys, grouped or global, 17 aggregate columns per query; non-trivial = >=2 groups, >=1 null v, and an integer partial-sum overflow or int+float mix",
-        ctx.tier.pick(40_000, 6_000_000),
+        ctx.tier.pick(320_000, 6_000_000),
         move || strategy(excl_temporal),
         check,
     );
